@@ -119,6 +119,7 @@ Definition E_variant_spec : N := 3.
 Definition E_debug_enum_fmt : N := 4.
 Definition E_debug_field_fmt_with_container_fmt : N := 5.
 Definition E_union_no_attr : N := 6.
+Definition E_debug_union : N := 7.
 
 Definition trait_eqb (a b : trait) : bool :=
   match a, b with
@@ -427,6 +428,14 @@ Definition d_expand_struct (d : dexpansion) : result (body * list bound) :=
   | ROk b => ROk (b, d_generate_bounds d)
   end.
 
+(** [expand_union] ([display.rs:392-407]): a union must carry a format; it is handed to [write!] as is (no field
+    bindings, no delegation, no inference); only the user's predicates become bounds *)
+Definition d_expand_union (fmt : option fmt_attr) (user_bounds : list N) : result (body * list bound) :=
+  match fmt with
+  | None => RErr E_union_no_attr
+  | Some a => ROk (BWrite a [], map BUser user_bounds)
+  end.
+
 (** ** [Debug] ([fmt/debug.rs]) *)
 Record gexpansion := {
   g_fmt : option fmt_attr;             (* struct- or variant-level format *)
@@ -497,6 +506,9 @@ Definition g_generate_bounds (g : gexpansion) : list bound :=
                 end)
              (fl (g_fields g))
   end.
+
+(** [Debug] cannot be derived for unions ([debug.rs:44-49]) *)
+Definition g_expand_union : result (gbody * list bound) := RErr E_debug_union.
 
 Definition g_expand_one (g : gexpansion) : result (gbody * list bound) :=
   match g_generate_body g with
